@@ -73,6 +73,11 @@ def cases(tier, seed):
     for k in (2, 3, 5, 9):
         yield {"kind": "dsk", "hist": [x for i in range(68 // k + 1) for x in ("g{}".format(k), SAVE)], "fill": k}
     yield {"kind": "dsk", "hist": [x for i in range(30) for x in ("g2", SAVE)] + ["g3", SAVE, "g3", SAVE, "g1", SAVE, "g1", SAVE, "g1", SAVE], "fill": "mix"}
+    # ASCII files have no 16-bit length field on a disk: they may be larger than 65,535 bytes, up to the whole disk
+    for kind in ("dsk", "cas"):
+        for h in ([0, SAVE, "asc70000", SAVE, 1, SAVE], ["asc65536", SAVE, 0, SAVE], ["asc65535", SAVE, 0, SAVE], ["asc156671", SAVE, SAVE],
+                  ["asc156671", SAVE, 0, SAVE], ["asc156672", SAVE], [0, "asc100000", SAVE, "asc50000", SAVE, 1, SAVE]):
+            yield {"kind": kind, "hist": h}
     ex = exact_size_lengths()
     if ex:
         for pat in ("00", "ff", "dir"):
@@ -85,6 +90,9 @@ def file_of(case, sym):
     if isinstance(sym, str) and sym.startswith("g"):
         k = int(sym[1:])
         return c07.fspec("ML", k * 2304 - 10 - 100, "G{}".format(k), pat="ramp7")
+    if isinstance(sym, str) and sym.startswith("asc"):
+        n = int(sym[3:])
+        return c07.fspec("ASC", n, "T{}".format(n % 100000), "TXT", pat="ramp7")
     if isinstance(sym, str) and sym.startswith("x"):
         i = int(sym[1:])
         return c07.fspec("ML", case["exact"][i], "X{}".format(i), pat=case["pat"])
@@ -227,7 +235,8 @@ def _compare(model, listed, kind):
 
 def describe(tier):
     return {
-        "alphabet": "operations add(f) for f in {} and save+re-open, on cassette and disk host files; big-cassette histories with 65535-byte "
+        "alphabet": "operations add(f) for f in {} and save+re-open, on cassette and disk host files; ASCII files of 65535, 65536, 70000, 100000 bytes and of "
+                    "exactly / one more than the whole disk (156671 / 156672 bytes) in 7 histories per medium; big-cassette histories with 65535-byte "
                     "files of 5 content patterns (incl. planted directory entries) crossing 161,280 bytes, and three files whose cassette image is "
                     "exactly 161,280 bytes; fill-to-capacity histories (2-, 3-, 5-, 9-granule files and a mixture, one save/re-open per file, until the disk "
                     "refuses)".format([C.brief(f) for f in ALPHA]),
